@@ -7,7 +7,7 @@ import Bng.Model.PppoeServer
     new radius|noradius <bits>            => ok
     padi m1 | padr m1 cookie|nocookie | padt m1 <sid>
     lcp m1 <sid> creq|cack|cnak|term|echo
-    pap m1 <sid> good|bad accept|reject|down
+    pap m1 <sid> good|bad|empty accept|reject|down
     ipcp m1 <sid> creq-ip|creq-dns|creq-none|cack
     ip m1 <sid> | sweep
          => sent=<frames|-> sess=<sid:mac:STATE:auth|unauth:ip|-,…|-> pool=<free>/<allocated>
@@ -61,7 +61,9 @@ def parseIn (toks : List String) : Option In :=
       let m ← parseTagged 'm' m; let sid ← sid.toNat?
       let r ← match r with
         | "accept" => some Radius.accept | "reject" => some .reject | "down" => some .down | _ => none
-      pure (.pap m sid (g == "good") r)
+      let pw ← match g with
+        | "good" => some Pw.good | "bad" => some .bad | "empty" => some .empty | _ => none
+      pure (.pap m sid pw r)
   | ["ipcp", m, sid, k] => do
       let m ← parseTagged 'm' m; let sid ← sid.toNat?
       let k ← match k with
@@ -128,8 +130,8 @@ def monitor (mn : Mon) (i : In) (impl : String) : Mon × List (String × String 
       else o) mn.owner
   let authOK := sent.foldl (fun a (k, sid) => if k == "PADS" then a.filter (· ≠ sid) else a) mn.authOK
   let authOK := match i with
-    | .pap m sid _ r =>
-      if AMap.lookup owner sid = some m ∧ (mn.prev.any (·.sid == sid)) ∧ (!mn.radius || decide (r = Radius.accept))
+    | .pap m sid pw r =>
+      if AMap.lookup owner sid = some m ∧ (mn.prev.any (·.sid == sid)) ∧ (!mn.radius || (decide (r = Radius.accept) && decide (pw ≠ Pw.empty)))
       then (if authOK.contains sid then authOK else sid :: authOK) else authOK
     | _ => authOK
   -- 2. service only after authentication
